@@ -44,6 +44,15 @@ def run(ctx, res):
     empty = {'cfg': {'nquads': True, 'mode': 'NO'}, 'sources': [{'key': 'S0', 'kind': 'csv', 'cols': ['id'], 'rows': []}],
              'doc': [{'id': mapcase.EX + 'tm/T', 'src': 'S0', 'nonasserted': False, 'subj': {'k': 'templ', 'v': mapcase.EX + 'r/{id}', 'ck': 'iri', 'tt': ''}, 'sjoins': [], 'classes': [mapcase.EX + 'C'], 'sgraphs': [], 'poms': []}]}
     cases.append(empty)
+    # a large result whose blank nodes each occur in two statements (above any plausible batch size of a loader)
+    n = ctx.scale(26000, 60000)
+    EX = mapcase.EX
+    def tm(k, v, ck='iri', tt=''):
+        return {'k': k, 'v': v, 'ck': ck, 'tt': tt}
+    cases.append({'cfg': {'nquads': True, 'mode': 'NO'}, 'sources': [{'key': 'S0', 'kind': 'csv', 'cols': ['id', 'v'], 'rows': [[str(i), 'v%d' % i] for i in range(n)]}],
+                  'doc': [{'id': EX + 'tm/T', 'src': 'S0', 'nonasserted': False, 'subj': tm('templ', 'b{id}', 'iri', 'bnode'), 'sjoins': [], 'classes': [], 'sgraphs': [],
+                           'poms': [{'preds': [tm('const', EX + 'p/a')], 'objs': [{'m': tm('ref', 'v'), 'lang': None, 'dt': None, 'joins': []}], 'graphs': []},
+                                    {'preds': [tm('const', EX + 'p/b')], 'objs': [{'m': tm('templ', EX + 'o/{id}'), 'lang': None, 'dt': None, 'joins': []}], 'graphs': [tm('const', EX + 'g/g1')]}]}]})
     wd = common.workdir()
     jobs, dirs = [], []
     for i, c in enumerate(cases):
@@ -70,6 +79,9 @@ def run(ctx, res):
         # Oxigraph
         if 'oxigraph_exc' in o:
             res.violations.append({'key': None, 'sig': 'oxigraph-raises', 'what': 'materialize_oxigraph raises: %s' % o['oxigraph_exc'], 'replay': c})
+        elif o.get('oxigraph_bnodes') != o.get('expected_bnodes'):
+            res.violations.append({'key': None, 'sig': 'oxigraph-bnodes', 'what': 'the Oxigraph store holds %s distinct blank nodes, the set %s: blank nodes were split or merged while loading'
+                                   % (o.get('oxigraph_bnodes'), o.get('expected_bnodes')), 'replay': c if len(c['sources'][0]['rows']) < 1000 else {'note': 'large generated case', 'rows': len(c['sources'][0]['rows'])}})
         elif o['oxigraph'] != exp:
             res.violations.append({'key': None, 'sig': 'oxigraph-quads', 'what': 'the Oxigraph store differs from the set: only store %r, only set %r'
                                    % ([q for q in o['oxigraph'] if q not in exp][:2], [q for q in exp if q not in o['oxigraph']][:2]), 'replay': c})
@@ -79,6 +91,10 @@ def run(ctx, res):
                 res.violations.append({'key': 'rdflib-no-rdf-star', 'what': 'recorded finding reproduced', 'replay': None})
             else:
                 res.violations.append({'key': None, 'sig': 'rdflib-raises', 'what': 'materialize raises: %s' % o['rdflib_exc'], 'replay': c})
+            continue
+        if o.get('rdflib_bnodes') != o.get('expected_bnodes'):
+            res.violations.append({'key': None, 'sig': 'rdflib-bnodes', 'what': 'the rdflib store holds %s distinct blank nodes, the set %s' % (o.get('rdflib_bnodes'), o.get('expected_bnodes')),
+                                   'replay': c if len(c['sources'][0]['rows']) < 1000 else {'note': 'large generated case'}})
             continue
         if o['rdflib_store'] != exp:
             res.violations.append({'key': None, 'sig': 'rdflib-store', 'what': 'the store behind the returned rdflib Graph differs from the set: only store %r, only set %r'
